@@ -14,7 +14,7 @@ Expansion runs under a watchdog: a timeout is a violation ("expansion terminates
 import itertools
 import signal
 
-from ..core import env, gcc, par, shrink
+from ..core import env, gcc, par, result, shrink
 from ..core.result import Failure, Report, robust
 from ..ref import expand as rx
 
@@ -336,9 +336,9 @@ def _work(arg):
                 fails.append((c, via))
     out = []
     seen = set()
-    for c, via in fails:
-        f = robust(mk_failure, {"defines": list(c[0]), "invocation": c[1], "via": via}, c, via, single)
-        if f and f.key() not in seen:
+    wit = lambda cv: {"defines": list(cv[0][0]), "invocation": cv[0][1], "via": cv[1]}  # noqa
+    for f in result.shrink_within_budget(fails, lambda cv: robust(mk_failure, wit(cv), cv[0], cv[1], single), wit):
+        if f.key() not in seen:
             seen.add(f.key())
             out.append(f)
     return len(cases), judged, ill, dis, len(fails), out, len(outcomes), disex
